@@ -263,19 +263,58 @@ static int print_expr (hawk_t* hawk, hawk_nde_t* nde)
 
 		case HAWK_NDE_EXP_BIN:
 		{
+			/* the parser builds a left-leaning chain of any length for
+			 * a+a+a+... in a loop. don't recurse into the left operand.
+			 * collect the nodes of the chain and print ((a + a) + a) + a
+			 * going back up from the innermost one */
 			hawk_nde_exp_t* px = (hawk_nde_exp_t*)nde;
+			hawk_nde_exp_t* one[1];
+			hawk_nde_exp_t** chain = one; /* chain[i + 1] is the left operand of chain[i] */
+			hawk_oow_t count = 1, i;
+			int n = -1;
 
-			PUT_SRCSTR (hawk, HAWK_T("("));
-			PRINT_OPERAND (hawk, px->left);
-			HAWK_ASSERT (px->left->next == HAWK_NULL);
+			while (px->left->type == HAWK_NDE_EXP_BIN)
+			{
+				px = (hawk_nde_exp_t*)px->left;
+				count++;
+			}
 
-			PUT_SRCSTR (hawk, HAWK_T(" "));
-			PUT_SRCSTR (hawk, binop_str[px->opcode][(hawk->opt.trait & HAWK_BLANKCONCAT)? 0: 1]);
-			PUT_SRCSTR (hawk, HAWK_T(" "));
+			if (count > 1)
+			{
+				chain = (hawk_nde_exp_t**)hawk_allocmem(hawk, count * HAWK_SIZEOF(*chain));
+				if (HAWK_UNLIKELY(!chain)) return -1;
+			}
+			for (px = (hawk_nde_exp_t*)nde, i = 0; i < count; i++)
+			{
+				chain[i] = px;
+				px = (hawk_nde_exp_t*)px->left;
+			}
 
-			PRINT_OPERAND (hawk, px->right);
-			HAWK_ASSERT (px->right->next == HAWK_NULL);
-			PUT_SRCSTR (hawk, HAWK_T(")"));
+			/* no PUT_SRCSTR/PRINT_OPERAND below. they return without releasing the chain */
+			for (i = 0; i < count; i++)
+			{
+				if (hawk_putsrcoocstr(hawk, HAWK_T("(")) <= -1) goto exp_bin_done;
+			}
+
+			HAWK_ASSERT (chain[count - 1]->left->next == HAWK_NULL);
+			if (print_operand(hawk, chain[count - 1]->left) <= -1) goto exp_bin_done;
+
+			for (i = count; i > 0; )
+			{
+				px = chain[--i];
+				HAWK_ASSERT (px->right->next == HAWK_NULL);
+
+				if (hawk_putsrcoocstr(hawk, HAWK_T(" ")) <= -1 ||
+				    hawk_putsrcoocstr(hawk, binop_str[px->opcode][(hawk->opt.trait & HAWK_BLANKCONCAT)? 0: 1]) <= -1 ||
+				    hawk_putsrcoocstr(hawk, HAWK_T(" ")) <= -1 ||
+				    print_operand(hawk, px->right) <= -1 ||
+				    hawk_putsrcoocstr(hawk, HAWK_T(")")) <= -1) goto exp_bin_done;
+			}
+			n = 0;
+
+		exp_bin_done:
+			if (chain != one) hawk_freemem (hawk, chain);
+			if (n <= -1) return -1;
 			break;
 		}
 
